@@ -156,6 +156,12 @@ static uint64_t atomic_fetch_add(uint64_t *p, uint64_t v)
   vx_step(p, old + v);
   return old;
 }
+/* store: an unconditional step from whatever the word holds now (after the environment's steps) to `desired` */
+static void atomic_store(uint64_t *p, uint64_t desired)
+{
+  interfere(p);
+  vx_step(p, desired);
+}
 static uint64_t atomic_fetch_sub(uint64_t *p, uint64_t v)
 {
   interfere(p);
